@@ -480,7 +480,8 @@ var probeFilters = func() []string {
 }()
 
 func retainedEvents(full bool) []event {
-	topics := []string{"a", "a/b", "b"}
+	// (b/a next to a/b: a '+' level followed by a literal one then has siblings with and without that child)
+	topics := []string{"a", "a/b", "b", "b/a"}
 	var evs []event
 	for _, t := range topics {
 		for _, q := range qosAll {
